@@ -1,11 +1,13 @@
 (* family 13: the seven file-directive PDUs, split in three parts by op range:
-   1300-1339 EOF/ACK/Prompt/KeepAlive, 1340-1369 Finished/Metadata, 1370-1399 NAK *)
+   1300-1339 EOF/ACK/Prompt/KeepAlive, 1340-1369 Finished/Metadata, 1370-1399 NAK;
+   the operation histories of all seven kinds (1306-1309, 1346, 1356, 1380) are in Run/DirHist.v *)
 From Coq Require Import ZArith List Bool.
-From SP Require Import Base.Result Base.Bytes Run.Marshal Run.DispPduA Run.DispPduB Run.DispPduC.
+From SP Require Import Base.Result Base.Bytes Run.Marshal Run.DispPduA Run.DispPduB Run.DispPduC Run.DirHist.
 Import ListNotations.
 Open Scope Z_scope.
 
 Definition run_pdu (op : Z) (a : args) : args :=
-  if op <? 1340 then run_pdu_a op a
+  if is_hist_op op then run_hist op a
+  else if op <? 1340 then run_pdu_a op a
   else if op <? 1370 then run_pdu_b op a
   else run_pdu_c op a.
